@@ -188,6 +188,40 @@ def castling_geometry(rng, limit=None):
     return cases[:limit] if limit else cases
 
 
+def castle_with_ep(rng, n):
+    """castling available while an en-passant target is pending (the opponent just double-stepped)"""
+    cases = []
+    for _ in range(n):
+        col = rng.choice("wb")
+        if col == "w":
+            home, own_k, own_r, own_p, en_k, en_p = 0, "K", "R", "P", "k", "p"
+            pawn_rank, ep_rank, behind = 4, 5, 6
+            rights = rng.choice(["K", "Q", "KQ"])
+        else:
+            home, own_k, own_r, own_p, en_k, en_p = 7, "k", "r", "p", "K", "P"
+            pawn_rank, ep_rank, behind = 3, 2, 1
+            rights = rng.choice(["k", "q", "kq"])
+        grid = {(4, home): own_k}
+        if "k" in rights.lower():
+            grid[(7, home)] = own_r
+        if "q" in rights.lower():
+            grid[(0, home)] = own_r
+        f = rng.randrange(8)
+        grid[(f, pawn_rank)] = en_p
+        if rng.random() < 0.6:
+            c = rng.choice([x for x in (f - 1, f + 1) if 0 <= x < 8])
+            grid[(c, pawn_rank)] = own_p
+        free = [(x, y) for x in range(8) for y in range(8) if (x, y) not in grid and (x, y) not in ((f, ep_rank), (f, behind))]
+        ek = rng.choice([q for q in free if abs(q[1] - home) >= 2])
+        grid[ek] = en_k
+        for _ in range(rng.choice([0, 1, 2])):
+            free = [(x, y) for x in range(8) for y in range(1, 7) if (x, y) not in grid and (x, y) not in ((f, ep_rank), (f, behind))]
+            grid[rng.choice(free)] = rng.choice("nbrq" if col == "w" else "NBRQ")
+        # the opponent may hold castling rights too
+        cases.append(fen_of_grid(grid, stm=col, rights=rights, ep=sqname(f, ep_rank)))
+    return cases
+
+
 def ep_geometry(rng, n):
     """G3: en-passant with pins along rank, file and diagonals, check evasion by ep, both capturers"""
     cases = []
@@ -394,7 +428,9 @@ def fen_strings(rng, legal_fens, n_valid, n_bad):
             s += rng.choice(["\n", "\r\n"])
         valid.append(s)
     bad = []
-    junk = ["é", "ü", "€", " ", "𝔸", "x", "9", "0", "/", " ", "-", "k", "K", "e", "ex", "e9", "é", "i3", "a0", "+", "+1", "-1", "256", "4294967296", "w", "b", "", "\t", "\n"]
+    # characters from the Unicode classes a loosened character test would let through
+    uni = ["٨", "４", "²", "½", "Ⅷ", "๓", "८", "𝟖", "К", "ｋ", "Ｋ", "ℚ", "\u00a0", "\u2003", "\u3000", "\u0085", "\ufeff"]
+    junk = ["é", "ü", "€", " ", "𝔸", "x", "9", "0", "/", " ", "-", "k", "K", "e", "ex", "e9", "é", "i3", "a0", "+", "+1", "-1", "256", "4294967296", "w", "b", "", "\t", "\n"] + uni
     for _ in range(n_bad):
         f = rng.choice(legal_fens).split(" ")
         style = rng.randrange(9)
@@ -434,4 +470,11 @@ def fen_strings(rng, legal_fens, n_valid, n_bad):
         else:
             s = "".join(rng.choice("rnbqkpRNBQKP12345678/ wb-KQkqa3é ") for _ in range(rng.randrange(0, 70)))
         bad.append(s)
+        # a well-formed FEN with exactly one character replaced by a Unicode look-alike of its class
+        f = rng.choice(legal_fens).split(" ")
+        fi = rng.choice([0, 0, 0, 1, 2, 3, 4, 5])
+        if f[fi]:
+            k = rng.randrange(len(f[fi]))
+            f[fi] = f[fi][:k] + rng.choice(uni) + f[fi][k + 1:]
+        bad.append(" ".join(f))
     return valid, bad
